@@ -25,6 +25,7 @@ impl Drop for CtxP {
     fn drop(&mut self) {
         objfam::emit("ctx_released", self.id);
         CTX_DROPS[self.id].fetch_add(1, std::sync::atomic::Ordering::SeqCst);
+        payload::CTX_RELEASES.fetch_add(1, std::sync::atomic::Ordering::SeqCst);
     }
 }
 
@@ -699,6 +700,7 @@ macro_rules! build_obj {
 impl World {
     pub fn new(nslots: usize, nctx: usize, be: Backend) -> Self {
         be.reset();
+        payload::LATE_PAYLOAD_DROPS.store(0, std::sync::atomic::Ordering::SeqCst);
         for c in CTX_DROPS.iter() {
             c.store(0, std::sync::atomic::Ordering::SeqCst);
         }
@@ -735,6 +737,7 @@ impl World {
     }
 
     pub fn apply(&mut self, e: &Value) {
+        payload::STEP_EPOCH.store(payload::CTX_RELEASES.load(std::sync::atomic::Ordering::SeqCst), std::sync::atomic::Ordering::SeqCst);
         let op = e["op"].as_str().unwrap();
         let x = e["x"].as_u64().unwrap_or(1) as usize - 1;
         let ok = json!({"kind":"ok","n":0});
@@ -1058,6 +1061,11 @@ impl World {
         if self.be.uad() > 0 {
             return ("bad:drop", "a call reached a destroyed payload".into());
         }
+        // CGlueObj!ReleaseContainer: the instance is destroyed first, the context clone released after it.  (Payloads and
+        // contexts of this module only: a plugin's payload destructors count in the plugin.)
+        if payload::LATE_PAYLOAD_DROPS.swap(0, std::sync::atomic::Ordering::SeqCst) > 0 {
+            return ("bad:ctx", "a payload's destructor ran after the context of the same object had been released (the last holder let the context go before its instance)".into());
+        }
         if known { ("known:F2", String::new()) } else { ("ok", String::new()) }
     }
 
@@ -1065,9 +1073,11 @@ impl World {
     pub fn teardown(mut self, leaked_expected: &[i64]) -> (&'static str, String) {
         for s in self.slots.iter_mut() {
             if let Some(s) = s.take() {
+                payload::STEP_EPOCH.store(payload::CTX_RELEASES.load(std::sync::atomic::Ordering::SeqCst), std::sync::atomic::Ordering::SeqCst);
                 ledger::track(|| drop(s.obj));
             }
         }
+        payload::STEP_EPOCH.store(payload::CTX_RELEASES.load(std::sync::atomic::Ordering::SeqCst), std::sync::atomic::Ordering::SeqCst);
         for p in self.env.iter_mut() {
             match p.take() {
                 Some(EnvH::Local(p)) => ledger::track(|| drop(p)),
@@ -1081,6 +1091,9 @@ impl World {
             if d != 1 {
                 return ("bad:drop", format!("payload {} dropped {} times once every object is gone", id, d));
             }
+        }
+        if payload::LATE_PAYLOAD_DROPS.swap(0, std::sync::atomic::Ordering::SeqCst) > 0 {
+            return ("bad:ctx", "a payload's destructor ran after the context of the same object had been released".into());
         }
         let mut known = false;
         for c in 1..=self.nctx {
